@@ -137,13 +137,15 @@ CLAIMED = {
          "splitting, Extension promotion), the HarfBuzz repacker and GPOS compaction 0..9 are checked on the implementation pair by pair / "
          "sequence by sequence against the rule text through HarfBuzz on tables that overflow 16-bit offsets (testing). Known finding F3.",
          "Rocq proof of offset exactness and placement over a byte-exact packer model + overflow/compaction shaping sweeps"),
- "C07": ("Gallina models of substitution-lookup subsetting, the glyph-closure fixpoint, ClassDef.subset with class remapping and "
-         "VarStore.subset_varidxes, tied to the subset/varStore methods by differential runs on otTables objects. Theorems: the computed closure "
-         "is closed under every lookup and contains the request; on a closed set the subset lookup rewrites every retained glyph, hence every "
-         "text, exactly as the original; class remapping preserves the class partition of retained glyphs; every used variation index is mapped "
-         "to a row holding the same deltas. All other tables (glyf/CFF/gvar/HVAR/GPOS/GDEF/cmap...) are checked on the implementation by "
-         "subsetting corpus fonts and generated feature programs (random lookup graphs, contextual calls, stages, variable kerning, "
-         "multi-VarData HVAR) and comparing every text over the request, outlines and advances at several locations through HarfBuzz (testing).",
+ "C07": ("Gallina models of substitution-lookup subsetting, of the WHOLE GSUB glyph closure (single/multiple/alternate/ligature subtables, "
+         "contextual and chaining lookups of formats 1-3 with nested lookup calls, iterated to a fixpoint), of ClassDef.subset with class "
+         "remapping and of VarStore.subset_varidxes, tied to the subset/varStore methods by differential runs (closure on GSUB tables compiled "
+         "by feaLib from generated programs). Theorems: the computed closure contains the request and is closed under every substitution and "
+         "ligature subtable of every directly applied lookup, for any lookup graph; on a closed set the subset lookup rewrites every retained "
+         "glyph, hence every text, exactly as the original; class remapping preserves the class partition of retained glyphs; every used "
+         "variation index is mapped to a row holding the same deltas. All other tables (glyf/CFF/gvar/HVAR/GPOS/GDEF/cmap...) are checked on "
+         "the implementation by subsetting corpus fonts and generated feature programs and comparing every text over the request, outlines and "
+         "advances at several locations through HarfBuzz (testing).",
          "Rocq proof of closure/subset/remap preservation over a model tied by differential correspondence + HarfBuzz subset sweeps"),
  "C08": ("The instancing arithmetic (normalizeValue, renormalizeValue with user-space distances, supportScalar, _solve/rebaseTent, "
          "piecewiseLinearMap) is C09's Gallina model, tied to the code by exact differential runs. Theorem: for every restricted range with "
